@@ -51,7 +51,7 @@ fn grid_cases() -> Vec<[usize; 9]> {
 
 fn families(t: Tier) -> Vec<(&'static str, u64)> {
     let g = grid_cases().len() as u64;
-    vec![("grid", t.n(g / 7, g)), ("rand", t.n(6_000, 200_000))]
+    vec![("grid", t.n(g / 7, g)), ("rand", t.n(6_000, 200_000)), ("nonfinite", t.n(1_000, 30_000))]
 }
 fn floors(_t: Tier) -> Vec<(&'static str, u64)> {
     vec![
@@ -101,8 +101,23 @@ pub fn run_case(ctx: &mut Ctx, fam: &str, k: u64, r: &mut Rng) {
     let mut di = batch.clone();
     di.extend(&[d, h, w]);
     let df = vec![cnt, d, fr, fc];
-    let vi = rand_ints(r, numel(&di), -9, 9);
-    let vf = rand_ints(r, numel(&df), -5, 5);
+    let mut vi = rand_ints(r, numel(&di), -9, 9);
+    let mut vf = rand_ints(r, numel(&df), -5, 5);
+    if fam == "nonfinite" {
+        // zeros next to infinities / NaN: the IEEE sum of products must still be produced (0 * inf = NaN)
+        for v in [&mut vi, &mut vf] {
+            for x in v.iter_mut() {
+                match r.below(10) {
+                    0 | 1 => *x = 0.0,
+                    2 => *x = f64::INFINITY,
+                    3 => *x = f64::NEG_INFINITY,
+                    4 => *x = f64::NAN,
+                    _ => {}
+                }
+            }
+        }
+        ctx.count("nonfinite_cases", 1);
+    }
     let (oh, ow) = ((h - fr) / sr + 1, (w - fc) / sc + 1);
     let overlap = (sr < fr && oh > 1) || (sc < fc && ow > 1);
     let remainder = (h - fr) % sr != 0 || (w - fc) % sc != 0;
